@@ -73,7 +73,8 @@ HexDigit(n) == CASE n = 0 -> "0" [] n = 1 -> "1" [] n = 2 -> "2" [] n = 3 -> "3"
                  [] n = 10 -> "a" [] n = 11 -> "b" [] n = 12 -> "c" [] n = 13 -> "d" [] n = 14 -> "e"
                  [] n = 15 -> "f"
 RECURSIVE Hex(_)
-Hex(n) == IF n < 16 THEN HexDigit(n) ELSE Hex(n \div 16) \o HexDigit(n % 16)
+\* (negative ids print as two's complement in the code; the model only needs a total, injective spelling for them)
+Hex(n) == IF n < 0 THEN "-" \o Hex(0 - n) ELSE IF n < 16 THEN HexDigit(n) ELSE Hex(n \div 16) \o HexDigit(n % 16)
 \* iauth_routing(): "%x_%x" of client id and serial
 Routing(id, ser) == Hex(id) \o "_" \o Hex(ser)
 
